@@ -24,21 +24,21 @@ theorem int_succ (m : Nat) : (m : Int) + (1 : Int) = ((m + 1 : Nat) : Int) := by
 
 /-- the statement about a translated `loop:` -/
 def GenLoopEq (loop : (K → K → Bool) → K → List K → Nat → Int → Int → Except String Int) : Prop :=
-  ∀ (lt : K → K → Bool) (key : K) (vs : List K) (f1 f2 lo hi : Nat),
+  ∀ (lt : K → K → Bool) (key : K) (vs : List K), vs.length < 4611686018427387904 → ∀ (f1 f2 lo hi : Nat),
     lo < hi → hi < vs.length → hi - lo ≤ f1 → hi - lo ≤ f2 →
     loop lt key vs f1 (lo : Int) (hi : Int) = .ok ((searchGELoop lt key vs f2 lo hi : Nat) : Int)
 
 /-- the statement about a translated `SearchGreaterThanOrEqualTo` -/
 def GenGEEq (ge : (K → K → Bool) → K → List K → Except String Int) : Prop :=
-  ∀ (lt : K → K → Bool) (key : K) (vs : List K), ge lt key vs = .ok ((searchGE lt key vs : Nat) : Int)
+  ∀ (lt : K → K → Bool) (key : K) (vs : List K), vs.length < 4611686018427387904 → ge lt key vs = .ok ((searchGE lt key vs : Nat) : Int)
 
 /-- the statement about a translated `SearchLessThanOrEqualTo` -/
 def GenLEEq (le : (K → K → Bool) → K → List K → Except String Int) : Prop :=
-  ∀ (lt : K → K → Bool) (key : K) (vs : List K), le lt key vs = .ok ((searchLE lt key vs : Nat) : Int)
+  ∀ (lt : K → K → Bool) (key : K) (vs : List K), vs.length < 4611686018427387904 → le lt key vs = .ok ((searchLE lt key vs : Nat) : Int)
 
 /-- proof script for `GenLoopEq`, given the name of the translated loop -/
 macro "gen_loop_proof" loop:ident : tactic => `(tactic| (
-  intro lt key vs f1
+  intro lt key vs hlen f1
   induction f1 with
   | zero => intro f2 lo hi h1 h2 h3; omega
   | succ f1 ih =>
@@ -49,8 +49,12 @@ macro "gen_loop_proof" loop:ident : tactic => `(tactic| (
     have hmlt : (lo + hi) >>> 1 < vs.length := by rw [shiftRight_one_eq]; omega
     have hmhi : (lo + hi) >>> 1 < hi := by rw [shiftRight_one_eq]; omega
     have hmlo : lo ≤ (lo + hi) >>> 1 := by rw [shiftRight_one_eq]; omega
-    simp only [$loop:ident, searchGELoop, int_shr1, goIdx_nat, List.getElem?_eq_getElem hmlt]
+    have hw1 : w64 ((lo : Int) + (hi : Int)) = (lo : Int) + (hi : Int) := w64_id _ (by omega) (by omega)
+    rw [$loop:ident]
+    simp only [searchGELoop, hw1, int_shr1, goIdx_nat, List.getElem?_eq_getElem hmlt]
     generalize (lo + hi) >>> 1 = m at *
+    have hw2 : w64 ((m : Int) + (1 : Int)) = (m : Int) + (1 : Int) := w64_id _ (by omega) (by omega)
+    simp only [hw2]
     split
     · split
       · have hh : lo < m := by omega
@@ -70,7 +74,7 @@ macro "gen_loop_proof" loop:ident : tactic => `(tactic| (
 
 /-- proof script for `GenGEEq` from the loop fact -/
 macro "gen_ge_proof" ge:ident hloop:ident : tactic => `(tactic| (
-  intro lt key vs
+  intro lt key vs hlen
   unfold $ge:ident searchGE
   by_cases hl : vs.length ≤ 1
   · have hh : ((vs.length : Nat) : Int) ≤ (1 : Int) := by omega
@@ -78,9 +82,10 @@ macro "gen_ge_proof" ge:ident hloop:ident : tactic => `(tactic| (
     rfl
   · have hh : ¬ ((vs.length : Nat) : Int) ≤ (1 : Int) := by omega
     simp only [hl, hh, ↓reduceIte]
-    have e : ((vs.length : Nat) : Int) - (1 : Int) = ((vs.length - 1 : Nat) : Int) := by omega
+    have e : w64 (((vs.length : Nat) : Int) - (1 : Int)) = ((vs.length - 1 : Nat) : Int) := by
+      rw [w64_id _ (by omega) (by omega)]; omega
     rw [e]
-    exact $hloop lt key vs (vs.length + 1) vs.length 0 (vs.length - 1) (by omega) (by omega) (by omega) (by omega)))
+    exact $hloop lt key vs hlen (vs.length + 1) vs.length 0 (vs.length - 1) (by omega) (by omega) (by omega) (by omega)))
 
 theorem searchGE_le_length (key : K) (vs : List K) : searchGE lt key vs ≤ vs.length := by
   by_cases hne : vs = []
@@ -89,15 +94,16 @@ theorem searchGE_le_length (key : K) (vs : List K) : searchGE lt key vs ≤ vs.l
 
 /-- proof script for `GenLEEq` from the GE fact -/
 macro "gen_le_proof" le:ident hge:ident : tactic => `(tactic| (
-  intro lt key vs
+  intro lt key vs hlen
   unfold $le:ident searchLE
-  rw [$hge:ident lt key vs]
+  rw [$hge:ident lt key vs hlen]
   simp only [goIdx_nat]
   have hidx := searchGE_le_length (lt := lt) key vs
   generalize searchGE lt key vs = index at hidx
   by_cases h0 : index > 0
   · have h3 : ((index : Nat) : Int) > (0 : Int) := by omega
-    have h4 : ((index : Nat) : Int) - (1 : Int) = ((index - 1 : Nat) : Int) := by omega
+    have h4 : w64 (((index : Nat) : Int) - (1 : Int)) = ((index - 1 : Nat) : Int) := by
+      rw [w64_id _ (by omega) (by omega)]; omega
     by_cases hlen : index = vs.length
     · have h1 : ((index : Nat) : Int) = ((vs.length : Nat) : Int) := by omega
       have h2 : vs[index]? = none := by rw [hlen]; simp
